@@ -718,8 +718,10 @@ class ConstraintsIntersection(AbstractConstraintSet):
     @staticmethod
     def _isImposedBy(constraint, otherConstraint):
         # only an intersection imposes its operands (the value map also
-        # lists the operands of unions, which impose nothing)
-        if constraint == otherConstraint:
+        # lists the operands of unions, which impose nothing); `==` alone
+        # ignores the constraint class, the hash does not
+        if (hash(constraint) == hash(otherConstraint) and
+                constraint == otherConstraint):
             return True
 
         if isinstance(otherConstraint, ConstraintsIntersection):
